@@ -122,6 +122,7 @@ func (d *MsgPipeline) Start(ctx context.Context, msgMeta *module.MsgMetadata, ma
 		d:                  d,
 		rcptModifiersState: make(map[*rcptBlock]module.ModifierState),
 		deliveries:         make(map[module.DeliveryTarget]*delivery),
+		originalRcpts:      make(map[string]string),
 		msgMeta:            msgMeta,
 		log:                target.DeliveryLogger(d.Log, msgMeta),
 	}
@@ -281,6 +282,13 @@ type msgpipelineDelivery struct {
 	// Set by BodyNonAtomic if it reported the failure for all recipients
 	// without passing the body to the targets.
 	bodyRejected bool
+
+	// Rewrites done by this pipeline (rewritten address -> address passed to
+	// AddRcpt), used to report per-recipient statuses under the addresses
+	// the caller knows. msgMeta.OriginalRcpts cannot be used for that: it is
+	// shared with the pipelines this one is nested in, and a status would
+	// be translated by entries that belong to the other level.
+	originalRcpts map[string]string
 }
 
 func (dd *msgpipelineDelivery) AddRcpt(ctx context.Context, to string, opts smtp.RcptOptions) error {
@@ -353,6 +361,7 @@ func (dd *msgpipelineDelivery) AddRcpt(ctx context.Context, to string, opts smtp
 
 			if originalTo != to {
 				dd.msgMeta.OriginalRcpts[to] = originalTo
+				dd.originalRcpts[to] = originalTo
 			}
 
 			for _, tgt := range rcptBlock.targets {
@@ -515,7 +524,7 @@ func (dd *msgpipelineDelivery) BodyNonAtomic(ctx context.Context, c module.Statu
 		partDelivery, ok := delivery.Delivery.(module.PartialDelivery)
 		if ok {
 			partDelivery.BodyNonAtomic(ctx, statusCollector{
-				originalRcpts: dd.msgMeta.OriginalRcpts,
+				originalRcpts: dd.originalRcpts,
 				wrapped:       c,
 			}, header, body)
 			continue
